@@ -27,6 +27,9 @@ pub enum GenerateError {
 
     /// Object type has no known descriptor type mapping
     UnsupportedObjectType,
+
+    /// Integer literal is too large to be written in the output language
+    UnrepresentableLiteral,
 }
 
 /// Generate HLSL ast from ir module
@@ -1208,23 +1211,24 @@ fn generate_literal(
 ) -> Result<ast::Expression, GenerateError> {
     let lit = match *literal {
         ir::Constant::Bool(v) => ast::Literal::Bool(v),
-        ir::Constant::IntLiteral(v) if v < 0 && -v <= u64::MAX as i128 => {
+        ir::Constant::IntLiteral(v) if v < 0 && v.unsigned_abs() <= u128::from(u64::MAX) => {
             return Ok(ast::Expression::UnaryOperation(
                 ast::UnaryOp::Minus,
                 Box::new(Located::none(ast::Expression::Literal(
-                    ast::Literal::IntUntyped(-v as u64),
+                    ast::Literal::IntUntyped(v.unsigned_abs() as u64),
                 ))),
             ));
         }
         ir::Constant::IntLiteral(v) if v >= 0 && v <= u64::MAX as i128 => {
             ast::Literal::IntUntyped(v as u64)
         }
-        ir::Constant::IntLiteral(_) => panic!("cannot represent {literal:?}"),
+        ir::Constant::IntLiteral(_) => return Err(GenerateError::UnrepresentableLiteral),
         ir::Constant::Int32(v) if v < 0 => {
             return Ok(ast::Expression::UnaryOperation(
                 ast::UnaryOp::Minus,
                 Box::new(Located::none(ast::Expression::Literal(
-                    ast::Literal::IntUntyped(-v as u64),
+                    // The magnitude of the most negative value does not fit in the signed type
+                    ast::Literal::IntUntyped(u64::from(v.unsigned_abs())),
                 ))),
             ));
         }
